@@ -38,3 +38,6 @@ package ast
 //@ cellinv MV_Str_ast_Expr v: nodeOK(v)
 //@ cellinv E_S_ast_VarStmt d: optNode(d.Initializer)
 //@ cellinv H_ast_Literal_Value v: canon(v)
+
+// every listed property name of an object literal has an initialiser
+//@ typeinv ast.ObjectLiteral o: forall(k, 0, len(o.Keys), has(o.Properties, o.Keys[k].Lexeme))
